@@ -180,7 +180,9 @@ tag_st = st.one_of(
         lambda p: ''.join(c.upper() if b else c for c, b in zip(p[0], p[1]))),
     st.sampled_from(['food', 'Recurring', 'incomes', ' income', 'income ', 'INCOMĖ', 'İncome', 'transﬁer',
                      'investment!', '', 'Tränsfer', 'TRANSFER​', 'constructor', '__proto__', 'Constructor', 'toString', 'hasOwnProperty', '__defineGetter__', 'isPrototypeOf',
-                     'valueOf', 'prototype', '__class__', 'keys']),
+                     'valueOf', 'prototype', '__class__', 'keys',
+                     # letter forms that Unicode case FOLDING (not lower-casing) maps onto the special words: long s, st ligatures, Kelvin sign, dotless / dotted i
+                     'tran\u017ffer', 'TRAN\u017fFER', 'inve\u017ftment', 'inve\ufb06ment', 'inve\ufb05ment', 'INVE\ufb06MENT', '\u0131ncome', 'in\u212aome', 'transfe\u027c', 'ＩＮＣＯＭＥ']),
     st.text(max_size=6),
 )
 amount_st = st.one_of(
